@@ -353,12 +353,15 @@ class ExcelInPython:
                 if not is_number(row[0]) or not is_number(lookup_value):
                     continue
 
+            # тексты сравниваются без учёта регистра (как в _match)
+            key, value = (row[0].lower(), lookup_value.lower()) if isinstance(row[0], str) else (row[0], lookup_value)
+
             if range_lookup:
-                if row[0] <= lookup_value:
+                if key <= value:
                     last_valid_value = row[col_index_num - 1]
                 else:
                     return last_valid_value
-            elif row[0] == lookup_value:
+            elif key == value:
                 return row[col_index_num - 1]
 
         return last_valid_value
